@@ -31,6 +31,35 @@ def has_float_issue(v):
     return False
 
 
+def py_dialect(s):
+    """the same schema for Python's `re`: an ECMA-262 `$` (no multiline flag) matches at the very end only, Python's `$`
+    also before a final newline, so an unescaped `$` becomes `\\Z` (only the copy handed to Python is changed)"""
+    def fix(p):
+        out = ""
+        i = 0
+        while i < len(p):
+            if p[i] == "\\" and i + 1 < len(p):
+                out += p[i:i + 2]
+                i += 2
+                continue
+            out += "\\Z" if p[i] == "$" else p[i]
+            i += 1
+        return out
+    if isinstance(s, dict):
+        r = {}
+        for k, v in s.items():
+            if k == "pattern" and isinstance(v, str):
+                r[k] = fix(v)
+            elif k == "patternProperties" and isinstance(v, dict):
+                r[k] = {fix(pk): py_dialect(pv) for pk, pv in v.items()}
+            else:
+                r[k] = py_dialect(v)
+        return r
+    if isinstance(s, list):
+        return [py_dialect(v) for v in s]
+    return s
+
+
 nev = 0
 with open(out, "w") as f:
     made = 0
@@ -40,7 +69,7 @@ with open(out, "w") as f:
             continue
         try:
             Draft202012Validator.check_schema(schema)
-            val = Draft202012Validator(schema, format_checker=fc)
+            val = Draft202012Validator(py_dialect(schema), format_checker=fc)
         except Exception:
             continue
         made += 1
